@@ -217,25 +217,31 @@ structure St where
   applied : List (Option Rule) := []
   deriving Repr
 
-/-- the emission part of one iteration ("replacement processing", 3845-3895); `none` = goto failure -/
-def emit (t : Table) (mode : Nat) (input : List Nat) (maxlen : Nat) (s : Sel) (pos : Nat) (o : Out) : Option (Nat × Out) :=
+/-- the emission part of one iteration ("replacement processing", 3845-3895).  The Bool is false when
+    the code jumps to `failure:`; position and output then keep whatever progress was made (the `=`
+    operand emits character by character and may fail half-way) -/
+def emit (t : Table) (mode : Nat) (input : List Nat) (maxlen : Nat) (s : Sel) (pos : Nat) (o : Out) : Nat × Out × Bool :=
   if s.opcode == CTO_None then
-    (putCharacter t mode (inAt input pos) pos input maxlen o).map fun o' => (pos + 1, o')
+    match putCharacter t mode (inAt input pos) pos input maxlen o with
+    | some o' => (pos + 1, o', true)
+    | none => (pos, o, false)
   else
     match s.rule with
-    | none => none
+    | none => (pos, o, false)
     | some r =>
       if r.dots.length > 0 then
-        (updatePositions r.dots s.charslen 0 pos input maxlen o).map fun o' => (pos + s.charslen, o')
+        match updatePositions r.dots s.charslen 0 pos input maxlen o with
+        | some o' => (pos + s.charslen, o', true)
+        | none => (pos, o, false)
       else
         -- `=` operand: every character of the match through its own definition
-        let rec each (k : Nat) (p : Nat) (o : Out) : Option (Nat × Out) :=
+        let rec each (k : Nat) (p : Nat) (o : Out) : Nat × Out × Bool :=
           match k with
-          | 0 => some (p, o)
+          | 0 => (p, o, true)
           | k + 1 =>
             match putCharacter t mode (inAt input p) p input maxlen o with
-            | none => none
-            | some o' => if p + 1 ≥ input.length then some (p + 1, o') else each k (p + 1) o'
+            | none => (p, o, false)
+            | some o' => if p + 1 ≥ input.length then (p + 1, o', true) else each k (p + 1) o'
         each s.charslen pos o
 
 /-- one iteration of the main loop; `Sum.inr` = the loop is over (`true` = through `failure:` from
@@ -256,8 +262,8 @@ def step (t : Table) (mode : Nat) (input : List Nat) (maxlen : Nat) (st : St) : 
     let dc := if sel.opcode == CTO_Space then false else dc
     let st := { st with dontContract := dc }
     match emit t mode input maxlen sel st.pos st.out with
-    | none => (st, true)
-    | some (p', o2) =>
+    | (p', o2, false) => ({ st with pos := p', out := o2 }, true)
+    | (p', o2, true) =>
       let prev := if (CTO_Always ≤ sel.opcode && sel.opcode ≤ CTO_None) || (CTO_Digit ≤ sel.opcode && sel.opcode ≤ CTO_LitDigit)
                   then sel.opcode else st.prevOp
       ({ st with pos := p', out := o2, prevOp := prev }, false)
